@@ -39,6 +39,7 @@ type DriverManifest struct {
 	Distinct bool          `json:"distinct,omitempty"`
 	Sharing  bool          `json:"sharing,omitempty"`
 	Races    bool          `json:"races,omitempty"`
+	Wrap     string        `json:"wrap,omitempty"` // "" | errors | using
 }
 
 // RunSpec describes one generate-compile-execute case.
@@ -92,7 +93,9 @@ func (s *Session) PrepareModule(prog *spec.Program) (string, error) {
 	files := prog.Files()
 	files["go.mod"] = "module " + prog.Module + "\n\ngo 1.23\n\nrequire pgregory.net/rapid v1.3.0\n"
 	files["go.sum"] = scratchGoSum
-	files["vsup/vsup.go"] = drvsrc.VSup
+	files["vsup/vsup.go"] = strings.ReplaceAll(drvsrc.VSup, "MODULE/", prog.Module+"/")
+	files["mark/mark.go"] = drvsrc.Mark
+	files["vwrap/vwrap.go"] = drvsrc.VWrap
 	return dir, WriteTree(dir, files)
 }
 
@@ -249,7 +252,18 @@ func MethodInfos(c *model.Conv) ([]*MethodInfo, *model.Reject) {
 			rej.Msg = m.Name + ": " + rej.Msg
 			return nil, rej
 		}
-		out = append(out, &MethodInfo{Name: m.Name, Top: res.Top, Subs: res.Subs, Source: 0, Target: -1, Err: m.Err})
+		mi := &MethodInfo{Name: m.Name, Top: res.Top, Subs: res.Subs, Source: 0, Target: -1, Err: m.Err}
+		for i, r := range m.Roles {
+			switch r {
+			case "source":
+				mi.Source = i
+			case "context":
+				mi.Context = append(mi.Context, i)
+			case "target":
+				mi.Target = i
+			}
+		}
+		out = append(out, mi)
 	}
 	return out, nil
 }
